@@ -301,6 +301,10 @@ class VirtualClock:
   `sleep(dt)` advances the virtual time by max(dt, spin_tick) and yields the GIL (so spin loops such
   as `while not fut.done(): time.sleep(0)` make progress and `wait_until_alive` deadlines expire).
 
+  `deadline`: when set, `sleep()` raises TimeoutError once the virtual time has passed it — every spin
+  loop of the repo sleeps, so a loop that would spin for ever (e.g. `as_completed` when no worker can be
+  obtained) ends with an exception instead of hanging the check.
+
   `strict_other_threads=True`: threads other than the one that created the clock read
   `now + k * 1e-6` (k = number of their reads so far), i.e. a strictly increasing clock.  Background
   threads of the repo (CourierServer.run_until_shutdown) divide by elapsed time and die with
@@ -316,6 +320,7 @@ class VirtualClock:
     self._owner = threading.get_ident()
     self._strict = strict_other_threads
     self._reads = 0
+    self.deadline: float | None = None
 
   def time(self) -> float:
     if self._strict and threading.get_ident() != self._owner:
@@ -336,6 +341,8 @@ class VirtualClock:
 
   def sleep(self, dt: float = 0.0):
     self.advance(max(dt, self.spin_tick))
+    if self.deadline is not None and self.now > self.deadline and threading.get_ident() == self._owner:
+      raise TimeoutError(f'virtual deadline {self.deadline} exceeded (spin loop without progress)')
     _real_time.sleep(0)
 
   def __getattr__(self, name):   # anything else (strftime, ...) from the real module
